@@ -15,7 +15,7 @@ import (
 type loaded struct{ v4, v6 *ruleset }
 
 func loadRuleset(c compiled) *loaded {
-	return &loaded{v4: loadText(c.v4), v6: loadText(c.v6)}
+	return &loaded{v4: loadText(c.v4, false), v6: loadText(c.v6, true)}
 }
 
 // p <hook> <4|6> <proto> <src> <dst> <sport> <dport> <inIf> <outIf> <uid> <gid> <ctstate> <mark> <connmark>
@@ -336,6 +336,10 @@ func checkPacket(q parsedCfg, p packet, f fate) string {
 			return "outbound-dropped"
 		}
 		proxy := has(q.uids, p.uid) || has(q.gids, p.gid)
+		if q.dns && has(q.uids, p.uid) && p.proto == "tcp" && p.dport == 53 && red != "" {
+			// with DNS capture the agent's own TCP DNS (proxy UID) is never redirected, not even to the inbound port
+			return "dns_proxy_uid_port53"
+		}
 		if proxy {
 			// no_loop: the proxy's own traffic never goes to the outbound port; the only redirect it may
 			// take is the call-to-self on lo to a non-loopback address, to the inbound port
@@ -383,8 +387,11 @@ func checkPacket(q parsedCfg, p packet, f fate) string {
 			return "outbound_exact"
 		}
 	case "PREROUTING":
-		if q.raw.Mode == "TPROXY" || has(q.kubeVirt, p.inIf) {
+		if has(q.kubeVirt, p.inIf) {
 			return "" // stated by the Lean spec / packets stream only
+		}
+		if q.raw.Mode == "TPROXY" {
+			return checkTproxyInbound(q, p, f, loopDst)
 		}
 		if f.tproxy >= 0 {
 			return "inbound_tproxy_in_redirect_mode"
@@ -414,6 +421,64 @@ func checkPacket(q parsedCfg, p packet, f fate) string {
 		if want != (red == q.inboundPort) || (!want && red != "") {
 			return "inbound_exact"
 		}
+	}
+	return ""
+}
+
+// checkTproxyInbound: the inbound clauses in TPROXY mode (mangle table).
+func checkTproxyInbound(q parsedCfg, p packet, f fate, loopDst bool) string {
+	if f.dropped {
+		if q.raw.DropInvalid && p.ctstate == "INVALID" {
+			return ""
+		}
+		return "inbound_dropped"
+	}
+	if f.redirect >= 0 {
+		return "tproxy_mode_nat_redirect"
+	}
+	tmark, _ := strconv.ParseUint(q.raw.TProxyMark, 10, 32)
+	src6 := netip.MustParseAddr("127.0.0.6")
+	if p.v6 {
+		src6 = netip.MustParseAddr("::6")
+	}
+	captured := f.tproxy >= 0 || (f.mark == tmark && p.mark != tmark) // TPROXY'd or diverted
+	// "prevent infinite redirect": a packet already carrying the TPROXY mark is never captured again
+	if p.mark == tmark && f.tproxy >= 0 {
+		return "tproxy_no_reloop"
+	}
+	// traffic the proxy itself sends over lo (from 127.0.0.6, or not marked 1338) is not captured
+	if p.inIf == "lo" && (p.src == src6 || p.mark != 1338) && captured {
+		return "tproxy_lo_bypass"
+	}
+	if p.proto != "tcp" || has(q.exclIfs, p.inIf) {
+		if captured {
+			return "tproxy_inbound_exact"
+		}
+		return ""
+	}
+	if p.mark == tmark || p.inIf == "lo" {
+		return ""
+	}
+	d := strconv.FormatUint(p.dport, 10)
+	sel := false
+	switch {
+	case q.raw.InboundInclude == "":
+	case q.raw.InboundInclude == "*":
+		sel = !has(config.Split(q.raw.InboundExclude), d)
+	default:
+		sel = has(config.Split(q.raw.InboundInclude), d)
+	}
+	if p.ctstate == "INVALID" && q.raw.DropInvalid {
+		return ""
+	}
+	reply := p.ctstate == "ESTABLISHED" || p.ctstate == "RELATED"
+	wantTproxy := sel && !reply && !loopDst
+	wantDivert := sel && reply
+	if wantTproxy != (f.tproxy >= 0 && strconv.FormatInt(f.tproxy, 10) == q.inboundPort) || (!wantTproxy && f.tproxy >= 0) {
+		return "tproxy_inbound_exact"
+	}
+	if wantDivert != (f.tproxy < 0 && f.mark == tmark) && !wantTproxy {
+		return "tproxy_divert_exact"
 	}
 	return ""
 }
